@@ -356,6 +356,11 @@ Fixpoint resolve_ns_loop (start_idx : N) (is : list N) (d : document) : res docu
 Fixpoint N_range (a : N) (n : nat) : list N :=
   match n with O => [] | S m => a :: N_range (a + 1) m end.
 
+(* the range [start, len) of the tree order as a ShortRange; the list may not have more than
+   u32::MAX entries (NamespacesLimitReached otherwise) *)
+Definition ns_range_checked (start len : N) : res range :=
+  if u32_max <? len then Err NamespacesLimitReached else Ok (start, len).
+
 Definition resolve_namespaces (c : context) : res (range * context) :=
   let d := c_doc c in
   let! pnd := match nth_N (d_nodes d) (c_parent_id c) with Some x => Ok x | None => Panic P_index end in
@@ -365,10 +370,10 @@ Definition resolve_namespaces (c : context) : res (range * context) :=
     else
       let '(pa, pe) := parent_ns in
       let! d := resolve_ns_loop (c_ns_start_idx c) (N_range pa (N.to_nat (pe - pa))) d in
-      let! r := short_range (c_ns_start_idx c) (len_N (d_ns_tree d)) in
+      let! r := ns_range_checked (c_ns_start_idx c) (len_N (d_ns_tree d)) in
       Ok (r, set_doc c d)
   | _ =>
-    let! r := short_range (c_ns_start_idx c) (len_N (d_ns_tree d)) in Ok (r, c)
+    let! r := ns_range_checked (c_ns_start_idx c) (len_N (d_ns_tree d)) in Ok (r, c)
   end.
 
 (* ---- resolve_attributes ---- *)
